@@ -976,7 +976,15 @@ func writeIfChanged(path, content string) {
 func main() {
 	repo := flag.String("repo", "/repo", "repository root")
 	out := flag.String("out", "", "directory for RoGen/*.lean")
+	opsOnly := flag.Bool("opgen", false, "print the translated operator machines (OpsGen.lean) to stdout and exit")
 	flag.Parse()
+	if *opsOnly {
+		if err := runOpgen(*repo, ""); err != nil {
+			fmt.Fprintln(os.Stderr, "opgen:", err)
+			os.Exit(1)
+		}
+		return
+	}
 	var facts []OpFact
 	files, _ := filepath.Glob(filepath.Join(*repo, "operator_*.go"))
 	sort.Strings(files)
@@ -1019,6 +1027,11 @@ func main() {
 		writeIfChanged(filepath.Join(*out, "Catalogue.lean"), sb.String())
 		js, _ := json.MarshalIndent(facts, "", " ")
 		writeIfChanged(filepath.Join(*out, "catalogue.json"), string(js)+"\n")
+		// the operator translator (opgen.go): lean/RoGen/OpsGen.lean
+		if err := runOpgen(*repo, *out); err != nil {
+			fmt.Fprintln(os.Stderr, "opgen:", err)
+			os.Exit(1)
+		}
 	} else {
 		js, _ := json.MarshalIndent(facts, "", " ")
 		fmt.Println(string(js))
